@@ -186,7 +186,8 @@ theorem compErrs_step_append (cfg : Cfg) (s : State) (c : Choice) : ∃ l, (step
     repeat' split
     all_goals first
       | (refine ⟨[], ?_⟩; simp; done)
-      | (refine ⟨[_], ?_⟩; simp; done)
+      | exact ⟨_, rfl⟩
+      | (refine ⟨?_, ?_⟩; rotate_left; rw [ce_sendRes])
 
 theorem compErrs_step (cfg : Cfg) (s : State) (c : Choice) (h : s.compErrs ≠ []) : (step cfg s c).compErrs ≠ [] := by
   obtain ⟨l, hl⟩ := compErrs_step_append cfg s c
